@@ -93,7 +93,41 @@ def raw(fn):
     return fn
 
 
+def edits(*args):
+    """the base file as it stands, edited on the command line (-e / -a) and through ConfigParser(overrides=, additional=)"""
+    def fn(t):
+        return t
+    fn.raw = True
+    fn.edits = args
+    return fn
+
+
 OPS = {
+    # a file that is not text in the encoding potable reads (command line only: the Python API is handed an open text file)
+    "not-text": [M("pair", raw(lambda t: t.encode("utf-16"))), M("pair", raw(lambda t: ("# caf\xe9\n" + t).encode("latin-1"))), M("eam", raw(lambda t: b"PK\x03\x04\x14\x00\x06\x00\x08\x00\xff\xfe\x9c\x80" + t.encode()))],
+    "edit-placeholder-syntax": [M("pair", edits(("-e", "Tabulation", "cutoff", "$x"))), M("pair", edits(("-a", "Pair", "Cu-Fe", "as.buck 1000.0$ 0.3 32.0"))),
+                                M("eam", edits(("-e", "Species", "Cu.atomic_mass", "${")))],
+    "pair-key-empty-species": [M("pair", lambda s: rename(s, "Pair", "Al-Al", "-Al")), M("pair", lambda s: rename(s, "Pair", "Al-Cu", "Al-")), M("eam", lambda s: rename(s, "Pair", "Al-Al", " - ")),
+                               M("adp", lambda s: rename(s, "EAM-ADP-Dipole", "Al-Cu", "-Cu"))],
+    "grid-step-underflow": [M("pair", lambda s: (delk(s, "Tabulation", "nr"), setv(s, "Tabulation", "dr", "1e-310"))),
+                            M("eam", lambda s: (delk(s, "Tabulation", "nrho"), setv(s, "Tabulation", "drho", "1e-320")))],
+    "grid-overflow": [M("pair", lambda s: (delk(s, "Tabulation", "cutoff"), setv(s, "Tabulation", "nr", "3"), setv(s, "Tabulation", "dr", "1e308"))),
+                      M("eam", lambda s: (delk(s, "Tabulation", "cutoff_rho"), setv(s, "Tabulation", "nrho", "5"), setv(s, "Tabulation", "drho", "1e308")))],
+    "table-not-finite": [M("pair", lambda s: setv(s, "Table-Form:tf", "y", "0.0 1.0 nan 9.0 16.0")), M("pair", lambda s: setv(s, "Table-Form:tf", "y", "0.0 1.0 4.0 inf 16.0")),
+                         M("eam", lambda s: setv(s, "Table-Form:tf", "x", "0.0 1.0 2.0 3.0 inf")),
+                         M("pair", lambda s: (delk(s, "Table-Form:tf", "x"), delk(s, "Table-Form:tf", "y"), setv(s, "Table-Form:tf", "xy", "0 0 1 1 2 nan 3 9 4 16")))],
+    "table-empty-name": [M("pair", lambda s: s.append(["Table-Form:", [["x", "0.0 1.0 2.0 3.0 4.0"], ["y", "0.0 1.0 4.0 9.0 16.0"]]])),
+                         M("eam", lambda s: s.append(["Table-Form: ", [["xy", "0 0 1 1 2 4 3 9"]]]))],
+    "table-named-like-library-function": [M("pair", lambda s: s.append(["Table-Form:pymath.sin", [["x", "0.0 1.0 2.0 3.0 4.0"], ["y", "0.0 1.0 4.0 9.0 16.0"]]])),
+                                          M("eam", lambda s: s.append(["Table-Form:as.buck", [["x", "0.0 1.0 2.0 3.0 4.0"], ["y", "0.0 1.0 4.0 9.0 16.0"]]]))],
+    # the expression library keeps variables and functions in one case-insensitive name space: a parameter of one formula
+    # named like another form (or table form) cannot be bound
+    "form-parameter-named-like-a-form": [M("pair", lambda s: sec(s, "Potential-Form")[1].append(["a(r, s)", "s*r"])),
+                                         M("pair", lambda s: sec(s, "Potential-Form")[1].append(["B(r)", "r + 1"])),
+                                         M("eam", lambda s: s.append(["Table-Form:a", [["x", "0.0 1.0 2.0 3.0 4.0"], ["y", "0.0 1.0 4.0 9.0 16.0"]]]))],
+    "form-label-reserved": [M("pair", lambda s: sec(s, "Potential-Form")[1].append(["pi(r)", "r"])), M("pair", lambda s: sec(s, "Potential-Form")[1].append(["r(x)", "x"])),
+                            M("eam", lambda s: sec(s, "Potential-Form")[1].append(["epsilon(r, s)", "s*r"])), M("pair", lambda s: sec(s, "Potential-Form")[1].append(["inf(r)", "r"]))],
+    "form-signature-trailing-text": [M("pair", lambda s: rename(s, "Potential-Form", "f(r,a)", "f(r,a)x")), M("eam", lambda s: rename(s, "Potential-Form", "f(r,a)", "f(r,a) + 1"))],
     "not-ini": [M("pair", raw(lambda t: "hello world\nthis is not a potable file\n")), M("eam", raw(lambda t: "<xml><potential/></xml>\n"))],
     "text-before-header": [M("pair", raw(lambda t: "target : LAMMPS\n" + t))],
     "unclosed-header": [M("pair", raw(lambda t: t.replace("[Pair]", "[Pair"))), M("eam", raw(lambda t: t.replace("[EAM-Embed]", "[EAM-Embed")))],
@@ -216,11 +250,17 @@ OPS = {
 }
 
 
-def run_api(text, binary=False):
+def run_api(text, binary=False, edits=()):
     """('ok'|'config'|'internal', message, bytes written to the sink)"""
     sink = io.BytesIO() if binary else io.StringIO()
     try:
-        tab = Configuration().read(io.StringIO(text))
+        if edits:
+            from atsim.potentials.config import ConfigParser, ConfigParserOverrideTuple
+            cp = ConfigParser(io.StringIO(text), overrides=[ConfigParserOverrideTuple(*e[1:]) for e in edits if e[0] == "-e"],
+                              additional=[ConfigParserOverrideTuple(*e[1:]) for e in edits if e[0] == "-a"])
+            tab = Configuration().read_from_parser(cp)
+        else:
+            tab = Configuration().read(io.StringIO(text))
         tab.write(sink)
         return "ok", "", sink.getvalue()
     except ConfigurationException as e:
@@ -229,14 +269,14 @@ def run_api(text, binary=False):
         return "internal", "%s: %s" % (type(e).__name__, str(e)[:200]), sink.getvalue()
 
 
-def run_cli_file(text, d, binary=False):
+def run_cli_file(text, d, binary=False, edits=()):
     inp, outp = os.path.join(d, "in.ini"), os.path.join(d, "out.dat")
-    with open(inp, "w") as f:
+    with open(inp, "wb" if isinstance(text, bytes) else "w") as f:
         f.write(text)
     if os.path.exists(outp):
         os.remove(outp)
     try:
-        status, so, se = run_cli([inp, outp])
+        status, so, se = run_cli([inp, outp] + [a for e in edits for a in (e[0], "%s:%s=%s" % e[1:])])
     except Exception as e:
         return "internal", "%s: %s" % (type(e).__name__, str(e)[:200]), None
     data = open(outp, "rb").read() if os.path.exists(outp) else None
@@ -368,7 +408,9 @@ def main(prop, tier, seed):
                 variants = []
                 for vi, (fam, fn) in enumerate(OPS[o["id"]]):
                     secs = base(fam)
-                    if getattr(fn, "raw", False):
+                    if getattr(fn, "edits", None):
+                        variants.append((vi, fam, (render(secs), fn.edits)))
+                    elif getattr(fn, "raw", False):
                         variants.append((vi, fam, fn(render(secs))))
                     else:
                         fn(secs)
@@ -376,7 +418,16 @@ def main(prop, tier, seed):
                         if tier == "thorough":      # the same malformed model with its sections and entries listed in reverse order
                             variants.append((vi + 100, fam, render(secs, layout=1)))
                 for vi, fam, text in variants:
-                    for route, got in (("api", run_api(text)), ("cli", run_cli_file(text, d))):
+                    ed = ()
+                    if isinstance(text, tuple):
+                        text, ed = text
+                    routes = [("cli", lambda: run_cli_file(text, d, edits=ed))]
+                    if not isinstance(text, bytes):
+                        routes.insert(0, ("api", lambda: run_api(text, edits=ed)))
+                    for route, thunk in routes:
+                        got = thunk()
+                        if isinstance(text, bytes):
+                            text = repr(text[:300])
                         run.evaluations += 1
                         run.replayed += 1
                         run.distinct("%s:%d:%s" % (o["id"], vi, route))
